@@ -145,6 +145,47 @@ pub fn ops(args: &[&str]) -> String {
                 b.sort_canonicals();
                 "-".into()
             }
+            // BUILD: the bundle goes through BundleBuilder (primary + canonicals as they are now); BUILDP x<payload>: canonicals, then
+            // payload() pushes the payload block; build() sorts and insists on payload data in the last block
+            Some(k @ "BUILD") | Some(k @ "BUILDP") => {
+                let mut bb = bp7::bundle::BundleBuilder::new().primary(b.primary.clone()).canonicals(b.canonicals.clone());
+                if k == "BUILDP" {
+                    match t.bytes() {
+                        Some(d) => bb = bb.payload(d),
+                        None => return "BADCASE".into(),
+                    }
+                }
+                match bb.build() {
+                    Ok(nb) => {
+                        b = nb;
+                        "OK".into()
+                    }
+                    Err(_) => "ERR".into(),
+                }
+            }
+            // ADDC: add_canonical_block with a block made by the public constructor for its type (new_hop_count_block,
+            // new_bundle_age_block, new_previous_node_block, new_payload_block, new_canonical_block) where the block's shape allows
+            Some("ADDC") => match parse_canonical(&mut t) {
+                Some(c) => {
+                    use bp7::canonical::*;
+                    use bp7::flags::BlockControlFlags;
+                    let f = BlockControlFlags::from_bits_retain(c.block_control_flags);
+                    let made = if c.crc != bp7::crc::CrcValue::CrcNo {
+                        c.clone()
+                    } else {
+                        match (c.block_type, c.data()) {
+                            (HOP_COUNT_BLOCK, CanonicalData::HopCount(l, 0)) => new_hop_count_block(c.block_number, f, *l),
+                            (BUNDLE_AGE_BLOCK, CanonicalData::BundleAge(a)) => new_bundle_age_block(c.block_number, f, *a),
+                            (PREVIOUS_NODE_BLOCK, CanonicalData::PreviousNode(e)) => new_previous_node_block(c.block_number, f, e.clone()),
+                            (PAYLOAD_BLOCK, CanonicalData::Data(d)) if c.block_number == 1 => new_payload_block(f, d.clone()),
+                            (ty, d) => new_canonical_block(ty, c.block_number, c.block_control_flags, d.clone()),
+                        }
+                    };
+                    b.add_canonical_block(made);
+                    "-".into()
+                }
+                None => return "SKIP".into(),
+            },
             // LIFENS <n < 1000000>: the lifetime Duration gets a sub-millisecond part (only possible through the API, not from the
             // wire); the property counts the lifetime in whole milliseconds, so nothing observable may change
             Some("LIFENS") => match t.u64() {
